@@ -385,6 +385,13 @@ def gen(snapshot=None):
         flushes = bool(re.search(r"output_file\s*\.(flush|shutdown)\(\)\s*\.await", pre_setlen))
         w(f"Definition clone_flushes_output : bool := {'true' if flushes else 'false'}.")
         facts["clone_flushes_output"] = flushes
+        # the clone command removes, renames, links or copies no file, and opens files for writing only through the one
+        # OpenOptions of the output
+        clc = strip_comments(cl)
+        m = re.search(r"remove_file|remove_dir|rename\(|hard_link|symlink|fs::copy|File::create|create_dir|set_permissions", clc)
+        w(f"Definition clone_source_touches_no_other_file : bool := {'false' if m else 'true'}.")
+        nopen = len(re.findall(r"OpenOptions::new\(\)", clc))
+        w(f"Definition clone_open_options_count : N := {nopen}.")
 
 
     _run_section('clonesteps', _sec_clonesteps, sections, broken, facts, ctx, snapshot)
